@@ -262,13 +262,14 @@ type QualityFeature interface {
 // of good sequence. http://www.phrap.org/phredphrap/phred.html
 func Trim(q QualityFeature, limit float64) (start, end int) {
 	var sum, max float64
+	cand := q.Start() // start of the window currently being summed
 	for i := q.Start(); i < q.End(); i++ {
 		sum += limit - q.EAt(i)
 		if sum < 0 {
-			sum, start = 0, i+1
+			sum, cand = 0, i+1
 		}
 		if sum >= max {
-			max, end = sum, i+1
+			max, start, end = sum, cand, i+1
 		}
 	}
 	return
